@@ -575,7 +575,12 @@ func runBounded(repo, verif, spec, tier string, seed int) map[string]interface{}
 	os.WriteFile(ov, ovb, 0o644)
 	defer os.Remove(ov)
 	t0 := time.Now()
-	cmd := exec.Command("go", "test", "-tags", "verif", "-overlay", ov, "-vet=off", "-count=1", "-timeout", "1500s", "-v", "-run", fs[2], ".")
+	// a bounded run that does not finish is a failure (a deadlock in the code under test), not a reason to wait
+	limit := "180s"
+	if tier == "thorough" {
+		limit = "1500s"
+	}
+	cmd := exec.Command("go", "test", "-tags", "verif", "-overlay", ov, "-vet=off", "-count=1", "-timeout", limit, "-v", "-run", fs[2], ".")
 	cmd.Dir = pkgDir
 	if seed == 0 {
 		seed = 1
@@ -594,6 +599,9 @@ func runBounded(repo, verif, spec, tier string, seed int) map[string]interface{}
 		}
 		if i := strings.Index(l, "VERIF-BOUNDED-FAIL"); i >= 0 && out["failure"] == nil {
 			out["failure"] = l[i:]
+		}
+		if strings.HasPrefix(l, "panic: test timed out") && out["failure"] == nil {
+			out["failure"] = "the bounded run did not finish within " + limit + " (" + l + "): the code under test blocks"
 		}
 	}
 	out["completed"] = oks
